@@ -86,9 +86,9 @@ def programs(shard, seed):
                        "labels": list(E.rename_classes(lab, seed)), "n_unlabeled": nu}
 
 
-def run_case(prog, res=None):
+def run_case(prog, res=None, model=None):
     try:
-        m, Wd = sup.fit_program(prog)
+        m, Wd = sup.fit_program(prog, model=model)
         obs = sup.observe(m)
     except Horizon:
         raise
@@ -155,6 +155,13 @@ def viol(prog, prob, sym, obs=None):
             "explanation": prob, "fingerprint": "SemiSupervisedOPF.fit: " + sym}
 
 
+_PREV = {}
+
+
+def _key(prog):
+    return sup.cache_key(prog) if prog["model"] in ("SupervisedOPF", "SemiSupervisedOPF") else None
+
+
 def run(shard, seed):
     res = Result()
     k = 0
@@ -172,11 +179,15 @@ def run(shard, seed):
             res.sample(prog, 1)
         k += 1
         if v:
+            prev = _PREV.get(_key(prog))
+            if prev is not None and "previous" not in v["program"]:
+                v["program"] = dict(v["program"], previous=prev)
             res.violations.append(v)
             if res.full:
                 break
+        _PREV[_key(prog)] = prog
     return res
 
 
 def replay(case):
-    return run_case(case["program"])
+    return sup.replay_with_history(run_case, case["program"])
